@@ -197,7 +197,7 @@ fn main() {
                         // (which faults are applicable at a given text position depends on signature bytes)
                         let uncontrolled = run.events.iter().any(|e| match e {
                             model::Op::NewBuilder { proto, .. } | model::Op::CoreIssue { proto, .. } => *proto == model::Proto::V1P,
-                            model::Op::Build { observe: true, .. } | model::Op::DrawKeys { .. } => true,
+                            model::Op::Build { observe: true, .. } | model::Op::DrawKeys { .. } | model::Op::ConcurrentIssuers { .. } => true,
                             _ => false,
                         });
                         if !uncontrolled {
